@@ -271,7 +271,7 @@ CHECKS.update({
         "delivered to registered listeners, 'advance to next timer' and 'let 0.5 s pass'; a reference justifier decides for every attempt start "
         "(socket creation) whether a clause of the property justifies it at that instant; plus linear runs reading the whole back-off table (13 "
         "consecutive failures x 6 failure classes)",
-        "All event sequences up to the depth/deviation bound from 21 seeded manager states (plus 3 directed histories) are executed on the real code; at-most-one-socket, "
+        "All event sequences up to the depth/deviation bound from 21 seeded manager states (plus 7 directed histories, four of them with the application hooks handed over as method / lambda / partial / callable object) are executed on the real code; at-most-one-socket, "
         "justified attempt instants, callback alternation/counts and the stopped-state obligations are checked after every step and at the end.",
         BASE,
         "DESIGN.md §3 C18, §9",
